@@ -12,7 +12,7 @@ Histories end at the first error, except after a failed link, which is survivabl
 histories on the real code.
 
 What is *not* proved here: that the C code behaves like `run` (that is the correspondence check
-`checks/c13.py`), and nothing about modules loaded twice as the same `MIR_module_t` object.
+`checks/c13.py`).
 -/
 namespace MirVerif.Link
 set_option linter.unusedSimpArgs false
@@ -76,10 +76,11 @@ theorem binding_spec (h : List Op) (k : Nat) (ifc : Option Iface) (res : Resolve
   simpa only [wantedAfter_eq] using this
 
 example : linkedMods (run (exH.take 5)) (run (exH.take 6)) (some .interp) =
-    [ { id := 1, imps := [], iface := some .interp },
-      { id := 2, imps := [(5, .call), (3, .ref), (6, .ptr)], binds := [(5, .func 5), (3, .data 5), (6, .ext 206)], inl := [(5, 5)],
-        iface := some .interp },
-      { id := 5, imps := [], iface := some .interp } ] := by decide
+    [ { id := 1, imps := [], iface := some .interp, uid := 0 },
+      { id := 2, imps := [(5, .call), (3, .ref), (6, .ptr)],
+        binds := [(5, .func 5), (3, .data 5), (6, .ext 206)], inl := [(5, 5)],
+        iface := some .interp, uid := 1 },
+      { id := 5, imps := [], iface := some .interp, uid := 2 } ] := by decide
 
 /-- an external registered with address NULL (`MIR_load_external (ctx, name, NULL)`, withdrawing an
 earlier one) IS the last definition: the import is bound to it — not handed to the resolver — and
@@ -289,6 +290,93 @@ example : (run [.loadModule 1 exA, .loadModule 2 exA]).err = some .repeatedDecl 
     (run [.loadModule 1 exA, .loadModule 2 exA]).env.lookup 5 = some (.func 2) ∧
     (run [.loadModule 1 exA, .loadModule 2 exA]).queue.map (·.id) = [1] := by decide
 
+/-! ### loading an existing module object again (`reload k`)
+
+`lastDef` treats `MIR_load_module` on the object of the k-th load as a load event like any other
+(`LinkSpec.lean`), and `env_is_last_def`, `binding_spec`, `observed_spec` cover histories with
+reloads.  Spelled out: -/
+
+/-- after a successful reload the exports of the reloaded module are the last definitions -/
+theorem reload_is_load_event (pre : List Op) (k id : Nat) (ds : List Decl)
+    (hk : (loadsR pre.reverse)[k]? = some (id, ds))
+    (hok : (run (pre ++ [.reload k])).err = none) (n : Name) (d : Def)
+    (hd : declExport id ds n = some d) :
+    (run (pre ++ [.reload k])).env.lookup n = some d := by
+  rw [env_is_last_def _ _ hok]
+  simp [lastDef, lastDefR, hk, hd]
+
+/-- the redefinition test runs again: reloading a module that exports a function is rejected without
+permission (its own first load already defined the name) -/
+theorem reload_rejected (pre : List Op) (k id : Nat) (ds : List Decl) (n : Name)
+    (hpre : (run pre).err = none) (hk : (loadsR pre.reverse)[k]? = some (id, ds))
+    (hb : ∃ b, build ds = .ok b) (hexp : declExport id ds n = some (.func id))
+    (hdef : (lastDef pre n).isSome = true) (hperm : redefOkR pre.reverse = false) :
+    (run (pre ++ [.reload k])).err = some .repeatedDecl := by
+  obtain ⟨b, hb⟩ := hb
+  rw [run_snoc, step_of_ok _ hpre]
+  have hinv := inv_run hpre
+  have hreg := reg_run hpre
+  obtain ⟨hx, hdefs, _⟩ := build_spec hb
+  have hkind : declHasExp ds n = true ∧ declDefKind ds n = some true := by
+    unfold declExport at hexp
+    cases h1 : declHasExp ds n <;> simp [h1] at hexp
+    cases h2 : declDefKind ds n with
+    | none => simp [h2] at hexp
+    | some k => cases k <;> simp [h2] at hexp ⊢
+  have hmem : (n, true) ∈ b.defs := (hdefs n true).2 hkind.2
+  have hexported : b.exported n = true := by rw [hx n, hkind.1, hkind.2]; simp
+  have henv : ((run pre).env.lookup n).isSome = true := by rw [hinv.env n]; exact hdef
+  have hrej := loadDefs_rejects (id := id) hmem hexported henv
+  have hl : (run pre).loaded[k]? = some (id, ds) := by rw [hreg.loaded]; exact hk
+  simp only [reloadModule, hl, hb, hinv.redef, hperm]
+  generalize loadDefs id false b b.defs (run pre).env = r at hrej ⊢
+  obtain ⟨env', e⟩ := r
+  simp only at hrej
+  subst hrej
+  rfl
+
+/-- the round-6 seeded change as a history: A (f→1), B (f→2), A again, importer -/
+def reloadH : List Op :=
+  [.loadModule 1 [.exp 5, .func 5], .setRedef true, .loadModule 2 [.exp 5, .func 5], .reload 0,
+   .loadModule 5 [.imp 5 .ptr], .link (some .interp) (fun _ => none), .call]
+
+example : lastDef (reloadH.take 3) 5 = some (.func 2) ∧ lastDef (reloadH.take 4) 5 = some (.func 1) ∧
+    (run reloadH).err = none ∧
+    (run reloadH).done.map (fun m => (m.id, m.binds)) = [(1, []), (2, []), (5, [(5, .func 1)])] ∧
+    (run [.loadModule 1 [.exp 5, .func 5], .reload 0]).err = some .repeatedDecl := by decide
+
+/-- reloading an exporter redirects its thunks to `undefined_interface`: a linked caller dies until
+the next link (the module is back in the queue, `funcLinked` is false) -/
+example : (run [.loadModule 1 [.exp 5, .func 5], .loadModule 2 [.imp 5 .ptr],
+                .link (some .gen) (fun _ => none), .call, .setRedef true, .reload 0, .call]).err
+            = some .undefinedInterface := by decide
+
+/-! Reloading exposes two more places where what RUNS is not what is BOUND (both replayed on the real
+code): a module that is loaded again and linked again has its imports bound to the last definitions
+(`binding_spec`), but keeps (a) the bodies inlined at its first link — known finding
+`C13:reload-stale-inline` — and (b), under the generator interfaces, the machine code of its first
+generation (`MIR_gen` returns the cached code) — `C13:reload-stale-mcode`. -/
+
+def staleMcodeH : List Op :=
+  [.loadModule 1 [.exp 5, .func 5], .loadModule 2 [.imp 5 .ptr], .link (some .gen) (fun _ => none),
+   .setRedef true, .loadModule 6 [.exp 5, .func 5], .reload 1, .link (some .gen) (fun _ => none), .call]
+
+theorem reload_stale_mcode_witness :
+    (run staleMcodeH).err = none ∧ lastDef (staleMcodeH.take 6) 5 = some (.func 6) ∧
+    (run staleMcodeH).done.getLast?.map
+        (fun m => (m.id, m.binds.lookup 5, observeImp (run staleMcodeH) m (5, .ptr))) =
+      some (2, some (.func 6), some 1) := by decide
+
+def staleInlineH : List Op :=
+  [.loadModule 1 [.exp 5, .func 5], .loadModule 2 [.imp 5 .call], .link (some .interp) (fun _ => none),
+   .setRedef true, .loadModule 6 [.exp 5, .func 5], .reload 1, .link (some .interp) (fun _ => none), .call]
+
+theorem reload_stale_inline_witness :
+    (run staleInlineH).err = none ∧ lastDef (staleInlineH.take 6) 5 = some (.func 6) ∧
+    (run staleInlineH).done.getLast?.map
+        (fun m => (m.id, m.binds.lookup 5, observeImp (run staleInlineH) m (5, .call))) =
+      some (2, some (.func 6), some 1) := by decide
+
 /-! ## 5. are bindings frozen?
 
 The full statement — "no later operation changes the import bindings of a module whose interface
@@ -310,17 +398,18 @@ theorem bindings_frozen_fails :
     ∃ (h : List Op) (op : Op) (i : Nat) (m m' : Mod), (run h).err = none ∧
       (run h).done[i]? = some m ∧ (step (run h) op).done[i]? = some m' ∧ m'.binds ≠ m.binds :=
   ⟨lateH, .call, 1,
-   { id := 2, imps := [(3, .ref)], binds := [(3, .data 1)], iface := some .interp },
-   { id := 2, imps := [(3, .ref)], binds := [(3, .data 4)], iface := some .interp, coded := true },
+   { id := 2, imps := [(3, .ref)], binds := [(3, .data 1)], iface := some .interp, uid := 1 },
+   { id := 2, imps := [(3, .ref)], binds := [(3, .data 4)], iface := some .interp, coded := true, uid := 1 },
    by decide, by decide, by decide, by decide⟩
 
-/-- What does hold: once the entry function of a module has been translated (`coded`: always for
-the generator interfaces, after the first call for the interpreter), NO later history changes
-anything of that module — bindings, inlined bodies, interface. -/
+/-- What does hold: once the entry function of a module has been translated (`coded`: at once for
+`MIR_set_gen_interface`, after the first call for the interpreter and the lazy generator), NO later
+history that does not load an existing module object again (`NoReload`) changes anything of that
+module — bindings, inlined bodies, interface, machine code. -/
 theorem bindings_frozen_partial (s : State) (later : List Op) (i : Nat) (m : Mod)
-    (hm : s.done[i]? = some m) (hc : m.coded = true) :
+    (hm : s.done[i]? = some m) (hc : m.coded = true) (hno : NoReload later) :
     (runFrom s later).done[i]? = some m :=
-  runFrom_done_coded later hm hc
+  runFrom_done_coded later hm hc hno
 
 def genH : List Op :=
   [.loadModule 1 exA, .loadModule 2 exB, .link (some .gen) resG]
@@ -335,13 +424,13 @@ example : (run genH).done[1]?.map (·.coded) = some true ∧
 
 /-- …and what its entry function observes stays the same, too -/
 theorem observed_frozen (s : State) (later : List Op) (m : Mod) (p : Name × Use) (v : Nat)
-    (h : observeImp s m p = some v) : observeImp (runFrom s later) m p = some v :=
-  observeImp_mono (fun _ hl => runFrom_done_ids later hl) m p h
+    (h : observeImp s m p = some v) (hno : NoReload later) :
+    observeImp (runFrom s later) m p = some v :=
+  observeImp_mono (fun _ hl => runFrom_done_ids later hl hno) m p h
 
-/-- modules linked with a generator interface are translated at once -/
-theorem gen_linked_is_coded (i : Iface) (m : Mod) (hi : i ≠ .interp) :
-    (installIface i m).coded = true := by
-  cases i <;> simp [installIface] at hi ⊢
+/-- modules linked with `MIR_set_gen_interface` are translated at once -/
+theorem gen_linked_is_coded (m : Mod) : (installIface .gen m).coded = true := by
+  simp [installIface]
 
 /-- every module is translated after the first `call` -/
 theorem called_is_coded (s : State) (m' : Mod) (hm : m' ∈ (callAll s).done) : m'.coded = true := by
@@ -368,14 +457,14 @@ of `n` that the entry function uses as a `mov` operand (`.ptr`, `.ref`) is re-bo
 loaded last before the CALL (not before the link). -/
 theorem interp_first_call_rebinds (h : List Op) (i : Nat) (m : Mod) (n : Name) (u : Use) (d0 : Def)
     (hok : (run h).err = none) (hm : (run h).done[i]? = some m) (hc : m.coded = false)
-    (hu : m.imps.lookup n = some u) (hcall : u ≠ .call) (hb : m.binds.lookup n = some d0) :
+    (hi : m.iface = some .interp) (hu : m.imps.lookup n = some u) (hcall : u ≠ .call) (hb : m.binds.lookup n = some d0) :
     ∃ m', (run (h ++ [.call])).done[i]? = some m' ∧
       m'.binds.lookup n = (lastDef h n <|> some d0) := by
   rw [run_snoc, step_of_ok _ hok]
   simp only [callAll_done, List.getElem?_map, hm, Option.map_some]
   refine ⟨_, rfl, ?_⟩
   have hcf : m.coded = false := hc
-  simp only [codeMod, hcf, Bool.false_eq_true, ↓reduceIte]
+  simp only [codeMod, hcf, hi, Bool.false_eq_true, ↓reduceIte]
   rw [lookup_map_keep (by intro p; split <;> rfl) n, hb, ← env_is_last_def h n hok]
   simp only [Option.map_some, hu]
   cases u with
@@ -420,7 +509,7 @@ address NULL, through which nothing can be called or read).  `m2` is the module'
 link and the call. -/
 theorem observed_spec (h : List Op) (k : Nat) (i : Iface) (res : Resolver)
     (hk : h[k]? = some (.link (some i) res)) (hok : (run (h.take (k + 1))).err = none) :
-    Forall2 (fun m m2 => m.inl = [] → m2.id = m.id ∧
+    Forall2 (fun m m2 => m.inl = [] → m.mcode = none → m2.id = m.id ∧
         ∀ n u, m.imps.lookup n = some u → wantedAfter (h.take k) res n ≠ some (.ext 0) →
           observeImp (callAll (run (h.take (k + 1)))) m2 (n, u) =
             (wantedAfter (h.take k) res n).map Def.value)
